@@ -1,25 +1,26 @@
-(** C14 — the round trip for values containing tuples and records (proved here, restated in Props_C14.v).
+(** C14 — the round trip for ALL well-formed values: tuples and records included (proved here, restated in Props_C14.v).
 
-    FULL STATEMENT (goal):
+    FULL STATEMENT, PROVED ([builder_roundtrip]):
       forall o vs, good_opts o -> forallb pywf vs = true ->
         exists b, run o ab_init (encode_all vs) = Ok b /\ observe b = Ok (unify vs).
-    It is FALSE as stated: [empty_name_refuted] — an unnamed record followed, at the same position, by a record
-    whose name is the empty string "" — the C++ (RecordBuilder::beginrecord: an unnamed builder stores name_ = "" and
-    beginrecord_check compares `name_ == name`) merges the two into one record type, the documented unification
-    ([unify]: same-named OR both unnamed) keeps them apart.  In the other order the builder makes a union, as documented.
+    None, booleans, integers, reals, strings, bytestrings, lists, tuples of any arity, records named or unnamed with
+    any field sets in any order, ARBITRARILY NESTED AND HETEROGENEOUS (tuples / records inside lists, lists and records
+    inside fields and slots, different arities / names / kinds at one position forming unions, None anywhere), for all
+    options that make GrowableBuffer grow.  The only hypothesis is [pywf]: the keys of one dict are distinct.
 
-    PROVED: the full statement for all well-formed values none of whose records is named by the empty string
-    ([pyok] = [pywf] && [named_ok], lemma [pyok_split]): None, booleans, integers, reals, strings, bytestrings, lists,
-    tuples of any arity, records named or unnamed with any field sets in any order, ARBITRARILY NESTED AND
-    HETEROGENEOUS (tuples / records inside lists, lists and records inside fields and slots, different arities /
-    names / kinds at one position forming unions, None anywhere), for all options that make GrowableBuffer grow:
-      [builder_roundtrip_struct_partial].
-    The staged fragments asked for are corollaries:
+    HISTORY: on the pinned tree the statement was false — an unnamed record followed, at the same position, by a
+    record named by the empty string "" were merged into one record type (an unnamed RecordBuilder stores
+    name_ = "" and beginrecord_check compared `name_ == name`); repaired in /repo by 75cafad (the check path now also
+    requires nameptr_ != nullptr) and the model (Builder.takes / the BRecord case of Builder.step) follows the repaired
+    code.  [empty_name_agrees] / [empty_name_other_order] show the two orders now both agree with [unify].  The
+    refutation theorem of the pinned variant (builder_roundtrip_full_refuted) no longer type-checks against the model
+    and has been deleted.
+
+    The staged fragments are corollaries:
       stage 1  [tuple_flat]   no_struct values and tuples (any arities, also mixed) whose slots are no_struct
-      stage 2  [record_flat]  no_struct values and records (same or different field sets / orders / names) whose
-                              field values are no_struct
-      stage 3/4 [pyok]        everything.
-    STILL EXCLUDED: only records named "" (Some []), and ill-formed values (duplicate keys in one dict). *)
+      stage 2  [record_flat]  no_struct values and records (any field sets / orders / names) whose field values are
+                              no_struct
+      stage 3/4 [pywf]        everything. *)
 From Coq Require Import ZArith List Bool Lia.
 From AwkV Require Import Base Layout.
 From AwkBuilder Require Import Builder Spec GbLemmas Invariant StepLemmas Proofs_C14
@@ -28,42 +29,10 @@ Import ListNotations.
 Open Scope Z_scope.
 
 (* ------------------------------------------------------------------ the fragments *)
-(* no record is named by the empty string *)
-Fixpoint named_ok (v : pyval) : bool :=
-  match v with
-  | PList l | PTup l => forallb named_ok l
-  | PRec nm fs =>
-      negb (oname_eqb nm (Some [])) &&
-      (fix go (fs : list (name * pyval)) : bool :=
-         match fs with [] => true | (_, x) :: t => named_ok x && go t end) fs
-  | _ => true
-  end.
-
-Definition allf (p : pyval -> bool) : list (name * pyval) -> bool :=
-  fix go (fs : list (name * pyval)) : bool := match fs with [] => true | (_, x) :: t => p x && go t end.
-
-Lemma pyok_split v : pyok v = pywf v && named_ok v.
-Proof.
-  induction v as [| | | | |l IH|l IH|nm fs IH] using pyval_indx; try reflexivity.
-  - cbn [pyok pywf named_ok]. induction IH as [|x t Hx _ IHt]; [reflexivity|]. cbn [forallb]. rewrite Hx, IHt.
-    destruct (pywf x), (named_ok x), (forallb pywf t), (forallb named_ok t); reflexivity.
-  - cbn [pyok pywf named_ok]. induction IH as [|x t Hx _ IHt]; [reflexivity|]. cbn [forallb]. rewrite Hx, IHt.
-    destruct (pywf x), (named_ok x), (forallb pywf t), (forallb named_ok t); reflexivity.
-  - change (pyok (PRec nm fs)) with (negb (oname_eqb nm (Some [])) && keys_nodup (map fst fs) && allf pyok fs).
-    change (pywf (PRec nm fs)) with (keys_nodup (map fst fs) && allf pywf fs).
-    change (named_ok (PRec nm fs)) with (negb (oname_eqb nm (Some [])) && allf named_ok fs).
-    assert (allf pyok fs = allf pywf fs && allf named_ok fs) as E.
-    { induction IH as [|[k x] t Hx _ IHt]; [reflexivity|]. cbn [snd] in Hx. cbn [allf]. fold (allf pyok t).
-      fold (allf pywf t). fold (allf named_ok t). rewrite Hx, IHt.
-      destruct (pywf x), (named_ok x), (allf pywf t), (allf named_ok t); reflexivity. }
-    rewrite E.
-    destruct (negb (oname_eqb nm (Some []))), (keys_nodup (map fst fs)), (allf pywf fs), (allf named_ok fs); reflexivity.
-Qed.
-
-Lemma no_struct_pyok v : no_struct v = true -> pyok v = true.
+Lemma no_struct_pywf v : no_struct v = true -> pywf v = true.
 Proof.
   induction v as [| | | | |l IH|l IH|nm fs IH] using pyval_indx; intro H; try reflexivity; try discriminate H.
-  cbn [no_struct] in H. cbn [pyok]. rewrite forallb_forall in *. rewrite Forall_forall in IH. auto.
+  cbn [no_struct] in H. cbn [pywf]. rewrite forallb_forall in *. rewrite Forall_forall in IH. auto.
 Qed.
 
 (* stage 1: flat tuples *)
@@ -74,61 +43,52 @@ Definition record_flat (v : pyval) : bool :=
   no_struct v ||
   match v with
   | PRec nm fs =>
-      negb (oname_eqb nm (Some [])) && keys_nodup (map fst fs) && forallb (fun kv => no_struct (snd kv)) fs
+      keys_nodup (map fst fs) && forallb (fun kv => no_struct (snd kv)) fs
   | _ => false
   end.
 
-Lemma tuple_flat_pyok v : tuple_flat v = true -> pyok v = true.
+Lemma tuple_flat_pywf v : tuple_flat v = true -> pywf v = true.
 Proof.
-  unfold tuple_flat. intro H. apply orb_true_iff in H. destruct H as [H|H]; [now apply no_struct_pyok|].
-  destruct v; try discriminate H. cbn [pyok]. rewrite forallb_forall in *. intros x Hx. apply no_struct_pyok; auto.
+  unfold tuple_flat. intro H. apply orb_true_iff in H. destruct H as [H|H]; [now apply no_struct_pywf|].
+  destruct v; try discriminate H. cbn [pywf]. rewrite forallb_forall in *. intros x Hx. apply no_struct_pywf; auto.
 Qed.
 
-Lemma record_flat_pyok v : record_flat v = true -> pyok v = true.
+Lemma record_flat_pywf v : record_flat v = true -> pywf v = true.
 Proof.
-  unfold record_flat. intro H. apply orb_true_iff in H. destruct H as [H|H]; [now apply no_struct_pyok|].
-  destruct v; try discriminate H. apply andb_true_iff in H. destruct H as [H H3]. cbn [pyok]. rewrite H. cbn [andb].
+  unfold record_flat. intro H. apply orb_true_iff in H. destruct H as [H|H]; [now apply no_struct_pywf|].
+  destruct v; try discriminate H. apply andb_true_iff in H. destruct H as [H H3]. cbn [pywf]. rewrite H. cbn [andb].
   clear H. induction fs as [|[k x] t IH]; [reflexivity|]. cbn [forallb snd] in H3. apply andb_true_iff in H3.
-  destruct H3 as [Hx Ht]. rewrite (no_struct_pyok x Hx). cbn [andb]. auto.
+  destruct H3 as [Hx Ht]. rewrite (no_struct_pywf x Hx). cbn [andb]. auto.
 Qed.
 
 Lemma forallb_imp {A} (p q : A -> bool) l : (forall x, p x = true -> q x = true) -> forallb p l = true -> forallb q l = true.
 Proof. intros H E. rewrite forallb_forall in *. auto. Qed.
 
-(* ------------------------------------------------------------------ (a) round trip, records and tuples *)
-Theorem builder_roundtrip_struct_partial o vs :
-  good_opts o -> forallb pyok vs = true ->
+(* ------------------------------------------------------------------ (a) round trip: the full statement *)
+Theorem builder_roundtrip o vs :
+  good_opts o -> forallb pywf vs = true ->
   exists b, run o ab_init (encode_all vs) = Ok b /\ observe b = Ok (unify vs).
 Proof.
   intros Ho Hok. destruct (feed_values_x o Ho vs Hok) as (b & E & R).
   exists b. split; [exact E|]. now apply rep_observe_unify.
 Qed.
 
-(* the same with the hypothesis of the full statement, plus the one exclusion *)
-Theorem builder_roundtrip_wf_partial o vs :
-  good_opts o -> forallb pywf vs = true -> forallb named_ok vs = true ->
-  exists b, run o ab_init (encode_all vs) = Ok b /\ observe b = Ok (unify vs).
-Proof.
-  intros Ho Hw Hn. apply builder_roundtrip_struct_partial; [exact Ho|].
-  rewrite forallb_forall in *. intros v Hv. rewrite pyok_split, (Hw v Hv), (Hn v Hv). reflexivity.
-Qed.
-
 (* stage 1 *)
 Theorem builder_roundtrip_tuples_partial o vs :
   good_opts o -> forallb tuple_flat vs = true ->
   exists b, run o ab_init (encode_all vs) = Ok b /\ observe b = Ok (unify vs).
-Proof. intros Ho H. apply builder_roundtrip_struct_partial; [exact Ho|]. eapply forallb_imp; [apply tuple_flat_pyok|exact H]. Qed.
+Proof. intros Ho H. apply builder_roundtrip; [exact Ho|]. eapply forallb_imp; [apply tuple_flat_pywf|exact H]. Qed.
 
 (* stage 2 *)
 Theorem builder_roundtrip_records_partial o vs :
   good_opts o -> forallb record_flat vs = true ->
   exists b, run o ab_init (encode_all vs) = Ok b /\ observe b = Ok (unify vs).
-Proof. intros Ho H. apply builder_roundtrip_struct_partial; [exact Ho|]. eapply forallb_imp; [apply record_flat_pyok|exact H]. Qed.
+Proof. intros Ho H. apply builder_roundtrip; [exact Ho|]. eapply forallb_imp; [apply record_flat_pywf|exact H]. Qed.
 
 (* the session form (as the correspondence runs it): no error event, one snapshot of length |vs| whose to_list is the
    specification *)
-Theorem from_iter_session_struct o vs :
-  good_opts o -> forallb pyok vs = true ->
+Theorem from_iter_session_full o vs :
+  good_opts o -> forallb pywf vs = true ->
   exists c, fst (run_session o ab_init 0 (map SC (encode_all vs) ++ [SSnapshot]))
             = [EvSnap (length (encode_all vs)) (zlen vs) (Ok c)] /\ to_list c = Ok (unify vs).
 Proof.
@@ -139,14 +99,14 @@ Proof.
 Qed.
 
 (* whatever the initial capacity, the resize policy and the contents of fresh memory *)
-Theorem growth_irrelevant_struct_partial o1 o2 vs :
-  good_opts o1 -> good_opts o2 -> forallb pyok vs = true ->
+Theorem growth_irrelevant_values o1 o2 vs :
+  good_opts o1 -> good_opts o2 -> forallb pywf vs = true ->
   exists b1 b2, run o1 ab_init (encode_all vs) = Ok b1 /\ run o2 ab_init (encode_all vs) = Ok b2 /\
                 observe b1 = observe b2.
 Proof.
   intros H1 H2 Hn.
-  destruct (builder_roundtrip_struct_partial o1 vs H1 Hn) as (b1 & E1 & O1).
-  destruct (builder_roundtrip_struct_partial o2 vs H2 Hn) as (b2 & E2 & O2).
+  destruct (builder_roundtrip o1 vs H1 Hn) as (b1 & E1 & O1).
+  destruct (builder_roundtrip o2 vs H2 Hn) as (b2 & E2 & O2).
   exists b1, b2. rewrite O1, O2. auto.
 Qed.
 
@@ -185,49 +145,39 @@ Proof. cbv zeta. split; [exact ex_opts_good|split; [reflexivity|split; vm_comput
 
 (* stages 3/4: [{"x":1,"y":[1.5]}, None, {"x":2}, [({"x":{"z":1}}, 2), ({"x":{"y":None}}, None)], (1,), "s",
                 {"y":[{"z":(1,2)}, {"x":[]}]}] *)
-Example builder_roundtrip_struct_example :
+Example builder_roundtrip_example_struct :
   let vs := [PRec None [(kx, PInt 1); (ky, PList [PFloat 1])]; PNone; PRec None [(kx, PInt 2)];
              PList [PTup [PRec None [(kx, PRec None [(kz, PInt 1)])]; PInt 2];
                     PTup [PRec None [(kx, PRec None [(ky, PNone)])]; PNone]];
              PTup [PInt 1]; PStr true [115];
              PRec None [(ky, PList [PRec None [(kz, PTup [PInt 1; PInt 2])]; PRec None [(kx, PList [])]])]] in
-  good_opts ex_opts /\ forallb pyok vs = true /\ forallb pywf vs = true /\ forallb named_ok vs = true /\
+  good_opts ex_opts /\ forallb pywf vs = true /\
   (do b <- run ex_opts ab_init (encode_all vs); observe b) = Ok (unify vs).
 Proof. cbv zeta. split; [exact ex_opts_good|repeat split; vm_compute; reflexivity]. Qed.
 
-Example from_iter_session_struct_example :
+Example from_iter_session_full_example :
   let vs := [PRec None [(kx, PInt 1); (ky, PList [PFloat 1])]; PNone; PRec None [(kx, PInt 2)]] in
-  forallb pyok vs = true /\
+  forallb pywf vs = true /\
   exists c, fst (run_session ex_opts ab_init 0 (map SC (encode_all vs) ++ [SSnapshot]))
             = [EvSnap (length (encode_all vs)) 3 (Ok c)] /\
             to_list c = Ok [VRec [(kx, VNum (DZ 1)); (ky, VList [VNum (DZ 1)])]; VNone;
                             VRec [(kx, VNum (DZ 2)); (ky, VNone)]].
 Proof. cbv zeta. split; [reflexivity|]. eexists. split; vm_compute; reflexivity. Qed.
 
-(* ------------------------------------------------------------------ the exclusion is necessary *)
-(* [{"x":1} (unnamed), ""{"y":1} (named by the empty string)]: well-formed, the run succeeds, and what is observed is
-   ONE record type {x,y} with Nones, whereas the documented unification keeps an unnamed and a named record apart. *)
-Example empty_name_refuted :
+(* ------------------------------------------------------------------ records named by the empty string *)
+(* [{"x":1} (unnamed), ""{"y":1} (named by the empty string)]: on the pinned tree the two were merged into one record
+   type {x,y}; with the repaired beginrecord (75cafad), which the model follows, they form a union, as documented. *)
+Example empty_name_agrees :
   let vs := [PRec None [(kx, PInt 1)]; PRec (Some []) [(ky, PInt 1)]] in
   forallb pywf vs = true /\
-  (do b <- run ex_opts ab_init (encode_all vs); observe b)
-    = Ok [VRec [(kx, VNum (DZ 1)); (ky, VNone)]; VRec [(kx, VNone); (ky, VNum (DZ 1))]] /\
-  unify vs = [VRec [(kx, VNum (DZ 1))]; VRec [(ky, VNum (DZ 1))]] /\
-  (do b <- run ex_opts ab_init (encode_all vs); observe b) <> Ok (unify vs).
-Proof. cbv zeta. repeat split; try (vm_compute; reflexivity). vm_compute. discriminate. Qed.
+  (do b <- run ex_opts ab_init (encode_all vs); observe b) = Ok (unify vs) /\
+  unify vs = [VRec [(kx, VNum (DZ 1))]; VRec [(ky, VNum (DZ 1))]].
+Proof. cbv zeta. repeat split; vm_compute; reflexivity. Qed.
 
-(* in the other order the builder makes a union and agrees with the specification *)
 Example empty_name_other_order :
-  let vs := [PRec (Some []) [(kx, PInt 1)]; PRec None [(ky, PInt 1)]] in
-  (do b <- run ex_opts ab_init (encode_all vs); observe b) = Ok (unify vs).
-Proof. vm_compute. reflexivity. Qed.
-
-(* so the full statement, with [pywf] alone, does not hold *)
-Theorem builder_roundtrip_full_refuted :
-  ~ (forall o vs, good_opts o -> forallb pywf vs = true ->
-       exists b, run o ab_init (encode_all vs) = Ok b /\ observe b = Ok (unify vs)).
-Proof.
-  intro H.
-  destruct (H ex_opts [PRec None [(kx, PInt 1)]; PRec (Some []) [(ky, PInt 1)]] ex_opts_good eq_refl) as (b & E & O).
-  vm_compute in E. inversion E; subst b. vm_compute in O. discriminate O.
-Qed.
+  let vs := [PRec (Some []) [(kx, PInt 1)]; PRec None [(ky, PInt 1)]; PRec (Some []) [(kz, PInt 2)]; PRec None [(kx, PNone)]] in
+  forallb pywf vs = true /\
+  (do b <- run ex_opts ab_init (encode_all vs); observe b) = Ok (unify vs) /\
+  unify vs = [VRec [(kx, VNum (DZ 1)); (kz, VNone)]; VRec [(ky, VNum (DZ 1)); (kx, VNone)];
+              VRec [(kx, VNone); (kz, VNum (DZ 2))]; VRec [(ky, VNone); (kx, VNone)]].
+Proof. cbv zeta. repeat split; vm_compute; reflexivity. Qed.
